@@ -198,6 +198,16 @@ func (ex *Exec) checkFrame(st *State, p *PtrV, pos token.Pos) {
 
 func (ex *Exec) checkFrameElem(st *State, p *PtrV, pos token.Pos, cond ...*Term) {
 	top := ex.topFrame(st)
+	// write-once element classes: only arrays allocated by the function being verified may be written
+	if p.Elem != nil && ex.pure == nil && !st.Fresh[p.Arr] {
+		if props, ok := ex.Specs.ImmutableElems["[]"+typeName(p.Elem)]; ok && top.EntryFull != nil {
+			g := Lt(top.EntryFull.Frontier, p.Arr)
+			for _, c := range cond {
+				g = Implies(c, g)
+			}
+			ex.emit(st, "immutable", "elements of []"+typeName(p.Elem), g, pos, props)
+		}
+	}
 	if top.Spec == nil || top.Spec.ModAll || ex.pure != nil {
 		return
 	}
@@ -222,10 +232,10 @@ func (ex *Exec) checkFrameElem(st *State, p *PtrV, pos token.Pos, cond ...*Term)
 // checkFrameMap: writing a map needs the map (or '*') in the modifies clause, unless the map is fresh.
 func (ex *Exec) checkFrameMap(st *State, t types.Type, ref *Term, pos token.Pos) {
 	top := ex.topFrame(st)
-	if top.Spec == nil || top.Spec.ModAll || ex.pure != nil || st.Fresh[ref] {
+	class := mapClass(t)
+	if top.Spec == nil || (top.Spec.ModAll && !isGhostClass(class)) || ex.pure != nil || st.Fresh[ref] {
 		return
 	}
-	class := mapClass(t)
 	alts := []*Term{Lt(top.EntryFull.Frontier, ref)}
 	for _, m := range top.Mods {
 		if m.ref != nil && m.class == class {
@@ -674,6 +684,7 @@ func (ex *Exec) checkPost(st *State, fr *Frame, res Value) {
 	env := ex.funcEnv(st, fr)
 	env.lets = sp.Lets
 	env.old = fr.EntryFull
+	env.inPost = true
 	env.bindResults(fr.Fn.Signature, res)
 	pos := fr.Fn.Pos()
 	if call, ok := sp.ReplayPost.(*ast.CallExpr); ok {
@@ -832,6 +843,16 @@ func (ex *Exec) VerifyFunc(sp *FuncSpec) {
 	fr.EntryFull = st.snapshotFull()
 	env := ex.funcEnv(st, fr)
 	env.lets = sp.Lets
+	// a closure: what its contract states about the captured variables was checked at creation
+	if own := ex.Specs.Funcs[specName(fn)]; own != nil && len(own.Captures) > 0 && fn.Parent() != nil {
+		if why := capturedReassigned(fn); why != "" {
+			ex.limit(sp.Name + ": " + why)
+			return
+		}
+		for _, c := range own.Captures {
+			st.assume(ex.evalBool(env, c.Expr))
+		}
+	}
 	env.assumeLocks = true
 	for _, c := range sp.Requires {
 		st.assume(ex.evalBool(env, c.Expr))
@@ -895,6 +916,45 @@ func (ex *Exec) VerifyFunc(sp *FuncSpec) {
 		// every path ended in a panic or a loop back edge: no return reached
 		ex.note(sp.Name + ": no return path reached")
 	}
+}
+
+// capturedReassigned: a 'captures' clause is only meaningful if the captured variables keep the value
+// they had when the closure was created: each is a cell of the parent stored to once, never by the closure.
+func capturedReassigned(fn *ssa.Function) string {
+	parent := fn.Parent()
+	for i, fv := range fn.FreeVars {
+		for _, b := range fn.Blocks {
+			for _, in := range b.Instrs {
+				if s, ok := in.(*ssa.Store); ok && s.Addr == fv {
+					return "captured variable " + fv.Name() + " is assigned inside the closure"
+				}
+			}
+		}
+		for _, b := range parent.Blocks {
+			for _, in := range b.Instrs {
+				mc, ok := in.(*ssa.MakeClosure)
+				if !ok || mc.Fn != fn || i >= len(mc.Bindings) {
+					continue
+				}
+				al, ok := mc.Bindings[i].(*ssa.Alloc)
+				if !ok {
+					continue // a variable of an enclosing closure: not checked (listed as an abstraction)
+				}
+				n := 0
+				for _, b2 := range parent.Blocks {
+					for _, in2 := range b2.Instrs {
+						if s, ok := in2.(*ssa.Store); ok && s.Addr == al {
+							n++
+						}
+					}
+				}
+				if n > 1 {
+					return "captured variable " + fv.Name() + " is assigned more than once in " + parent.Name()
+				}
+			}
+		}
+	}
+	return ""
 }
 
 // ifaceSig: signature of interface method "pkg.Iface.Method".
